@@ -5,7 +5,6 @@ namespace Aiocoap.Uri
 
 /-- everything `fromParsed … = ok o` tells about `p` and `o` -/
 structure AcceptedFacts (ip : IpOracle) (p : Parsed) (o : Opts) : Prop where
-  fragment : p.fragment = []
   scheme : p.scheme ∈ coapSchemes
   oscheme : o.scheme = p.scheme
   userinfo : hasUserinfo p.netloc = false
@@ -23,61 +22,90 @@ structure AcceptedFacts (ip : IpOracle) (p : Parsed) (o : Opts) : Prop where
 theorem fromParsed_ok_inv {ip : IpOracle} {p : Parsed} {o : Opts} (h : fromParsed ip p = .ok o) :
     AcceptedFacts ip p o := by
   unfold fromParsed at h
-  by_cases hf : p.fragment = []
-  · simp only [hf, ne_eq, not_true_eq_false, ↓reduceIte] at h
-    by_cases hs : p.scheme = []
-    · simp [hs] at h
-    · simp only [hs, ↓reduceIte] at h
-      by_cases hc : p.scheme ∈ coapSchemes
-      · have hc' : coapSchemes.contains p.scheme = true := by simpa using hc
-        simp only [hc', Bool.not_true, Bool.false_eq_true, ↓reduceIte] at h
-        cases hhn : hostnameOf p.netloc with
-        | none => simp [hhn] at h
-        | some hn =>
-          simp only [hhn] at h
-          by_cases hu : hasUserinfo p.netloc = true
-          · simp [hu] at h
-          · simp only [hu, Bool.false_eq_true, ↓reduceIte] at h
-            by_cases hlo : literalOk p.netloc = true
-            · simp only [hlo, Bool.not_true, Bool.false_eq_true, ↓reduceIte] at h
-              cases hpath : decodePath p.path with
-              | none => simp [hpath] at h
-              | some path =>
-                cases hquery : decodeQuery p.query with
-                | none => simp [hpath, hquery] at h
-                | some query =>
-                  simp only [hpath, hquery] at h
-                  cases hport : portOf p.netloc with
-                  | none => simp [hport] at h
-                  | some port =>
-                    simp only [hport] at h
-                    cases hund : undecidedHostinfo ip p.netloc with
-                    | none => simp [hund] at h
-                    | some hostinfo =>
-                      simp only [hund] at h
-                      by_cases hlit : (p.netloc.head? == some 91 || ip4Looking hn) = true
-                      · rw [if_pos hlit] at h
+  by_cases hs : p.scheme = []
+  · simp [hs] at h
+  · simp only [hs, ↓reduceIte] at h
+    by_cases hc : p.scheme ∈ coapSchemes
+    · have hc' : coapSchemes.contains p.scheme = true := by simpa using hc
+      simp only [hc', Bool.not_true, Bool.false_eq_true, ↓reduceIte] at h
+      cases hhn : hostnameOf p.netloc with
+      | none => simp [hhn] at h
+      | some hn =>
+        simp only [hhn] at h
+        by_cases hu : hasUserinfo p.netloc = true
+        · simp [hu] at h
+        · simp only [hu, Bool.false_eq_true, ↓reduceIte] at h
+          by_cases hlo : literalOk p.netloc = true
+          · simp only [hlo, Bool.not_true, Bool.false_eq_true, ↓reduceIte] at h
+            cases hpath : decodePath p.path with
+            | none => simp [hpath] at h
+            | some path =>
+              cases hquery : decodeQuery p.query with
+              | none => simp [hpath, hquery] at h
+              | some query =>
+                simp only [hpath, hquery] at h
+                cases hport : portOf p.netloc with
+                | none => simp [hport] at h
+                | some port =>
+                  simp only [hport] at h
+                  cases hund : undecidedHostinfo ip p.netloc with
+                  | none => simp [hund] at h
+                  | some hostinfo =>
+                    simp only [hund] at h
+                    by_cases hlit : (p.netloc.head? == some 91 || ip4Looking hn) = true
+                    · rw [if_pos hlit] at h
+                      injection h with h; subst h
+                      exact ⟨hc, rfl, by simpa using hu, hlo, hpath, hquery, ⟨port, hport⟩, hund,
+                        rfl, hn, hhn, Or.inl ⟨hlit, rfl⟩⟩
+                    · rw [if_neg hlit] at h
+                      have hlit' : (p.netloc.head? == some 91 || ip4Looking hn) = false := by
+                        simpa using hlit
+                      have hhead : (p.netloc.head? == some 91) = false := by
+                        simp only [Bool.or_eq_false_iff] at hlit'; exact hlit'.1
+                      -- the code decodes the netloc text; restate it in terms of `.hostname`
+                      have hb := uriHost_bridge hhn (by simpa using hu) hlo hhead
+                      cases hq : unquoteStrict (before 58 p.netloc) with
+                      | none => simp [hq] at h
+                      | some hh =>
+                        simp only [hq] at h
                         injection h with h; subst h
-                        exact ⟨hf, hc, rfl, by simpa using hu, hlo, hpath, hquery, ⟨port, hport⟩, hund,
-                          rfl, hn, hhn, Or.inl ⟨hlit, rfl⟩⟩
-                      · rw [if_neg hlit] at h
-                        cases hq : unquoteStrict hn with
-                        | none => simp [hq] at h
-                        | some hh =>
-                          simp only [hq] at h
-                          injection h with h; subst h
-                          exact ⟨hf, hc, rfl, by simpa using hu, hlo, hpath, hquery, ⟨port, hport⟩, hund,
-                            rfl, hn, hhn, Or.inr ⟨by simpa using hlit, hh, hq, rfl⟩⟩
-            · simp [hlo] at h
-      · simp [hc] at h
-  · simp [hf] at h
+                        rw [hq] at hb
+                        cases hq2 : unquoteStrict hn with
+                        | none => rw [hq2] at hb; cases hb
+                        | some h2 =>
+                          rw [hq2] at hb
+                          simp only [Option.map_some, Option.some.injEq] at hb
+                          exact ⟨hc, rfl, by simpa using hu, hlo, hpath, hquery, ⟨port, hport⟩,
+                            hund, rfl, hn, hhn, Or.inr ⟨hlit', h2, hq2, by rw [hb]⟩⟩
+          · simp [hlo] at h
+    · simp [hc] at h
 
 theorem setRequestUri_ok_inv {ip : IpOracle} {u : Bytes} {o : Opts}
     (h : setRequestUri ip u = .ok o) : ∃ p, urlsplit ip u = some p ∧ AcceptedFacts ip p o := by
   unfold setRequestUri at h
   cases hsplit : urlsplit ip u with
   | none => rw [hsplit] at h; cases h
-  | some p => rw [hsplit] at h; exact ⟨p, rfl, fromParsed_ok_inv h⟩
+  | some p =>
+    rw [hsplit] at h
+    simp only at h
+    split at h
+    · cases h
+    · exact ⟨p, rfl, fromParsed_ok_inv h⟩
+
+/-- an accepted text contains no `#` -/
+theorem setRequestUri_ok_nohash {ip : IpOracle} {u : Bytes} {o : Opts}
+    (h : setRequestUri ip u = .ok o) : 35 ∉ u := by
+  unfold setRequestUri at h
+  cases hsplit : urlsplit ip u with
+  | none => rw [hsplit] at h; cases h
+  | some p =>
+    rw [hsplit] at h
+    simp only at h
+    split at h
+    · cases h
+    · rename_i hc
+      intro hm
+      exact hc (contains_true_of_mem hm)
 
 -- facts about what urlsplit hands out ------------------------------------------------------
 
@@ -147,20 +175,28 @@ structure SplitFacts (ip : IpOracle) (u : Bytes) (p : Parsed) : Prop where
   query_mem : ∀ c ∈ p.query, c ∈ u
   path : p.netloc ≠ [] → p.path = [] ∨ ∃ r, p.path = 47 :: r
   netloc_eq : p.netloc = (splitAuthority u).2.1
+  scheme_eq : p.scheme = (splitAuthority u).1
+  nfkc : nfkcBad p.netloc = false
+  fragment : 35 ∉ u → p.fragment = []
 
 theorem urlsplit_facts {ip : IpOracle} {u : Bytes} {p : Parsed} (h : urlsplit ip u = some p) :
     SplitFacts ip u p := by
   unfold urlsplit at h
   by_cases hb : bracketsOk ip (splitAuthority u).2.1 = true
-  · simp only [hb, Bool.not_true, Bool.false_eq_true, ↓reduceIte, Option.some.injEq] at h
-    subst h
-    exact
-      { brackets := hb
-        netloc := fun c hc => mem_netloc hc
-        path_mem := fun c hc => mem_rest (mem_before (mem_before hc).1).1
-        query_mem := fun c hc => mem_rest (mem_before (mem_after hc)).1
-        path := fun hne => path_shape hne
-        netloc_eq := rfl }
+  · by_cases hk : nfkcBad (splitAuthority u).2.1 = true
+    · simp [hb, hk] at h
+    · simp only [hb, hk, Bool.not_true, Bool.false_eq_true, ↓reduceIte, Option.some.injEq] at h
+      subst h
+      exact
+        { brackets := hb
+          netloc := fun c hc => mem_netloc hc
+          path_mem := fun c hc => mem_rest (mem_before (mem_before hc).1).1
+          query_mem := fun c hc => mem_rest (mem_before (mem_after hc)).1
+          path := fun hne => path_shape hne
+          netloc_eq := rfl
+          scheme_eq := rfl
+          nfkc := by simpa using hk
+          fragment := fun h35 => after_of_not_mem (fun hm => h35 (mem_rest hm)) }
   · simp [hb] at h
 
 -- decoded segment lists are in scope -------------------------------------------------------
